@@ -81,6 +81,10 @@ type c26Case struct {
 	epochLen uint64
 	mode     string
 	blocks   []c26Block
+	// restartAfter: after the import of this block the EpochState is rebuilt from the
+	// database with NewEpochState (what a node start does; the block state, whose
+	// block tree a node stores on shutdown and reloads, is kept). 0 = never.
+	restartAfter int
 }
 
 func (c *c26Case) isAncestorOrSelf(a, b int) bool {
@@ -300,6 +304,9 @@ func c26GenCase(t *rapid.T) *c26Case {
 			c.blocks[i].annCfg = true
 		}
 	}
+	if len(c.blocks) > 2 && rapid.IntRange(0, 3).Draw(t, "restart") == 0 {
+		c.restartAfter = rapid.IntRange(1, len(c.blocks)-1).Draw(t, "restartAfter")
+	}
 	return c
 }
 
@@ -472,6 +479,15 @@ func c26Run(t c26T, c *c26Case, finalAfter map[int]int) {
 			}
 		}
 		b.imported = true
+		if c.restartAfter == i {
+			es2, err := NewEpochState(h.db, h.bs, c26Genesis(c.epochLen))
+			if err != nil {
+				t.Fatalf("NewEpochState after b%d: %v; history: %s", i, err, hist.String())
+			}
+			h.es = es2
+			hist.WriteString(" RESTART")
+			labels["epoch-state-rebuilt-from-database"] = true
+		}
 		if b.epoch > maxEpoch {
 			maxEpoch = b.epoch
 		}
